@@ -21,7 +21,10 @@ int main(int argc, char **argv) {
   if (argc < 5 || argc > 7) return 2;
   sqlite3 *db;
   /* argv[1] may be a file: URI (e.g. file:/path?psow=0 for a 4096 byte sector size) */
-  if (sqlite3_open_v2(argv[1], &db, SQLITE_OPEN_READWRITE | SQLITE_OPEN_URI, 0) != SQLITE_OK) return 3;
+  /* CRASHWRITER_CREATE: the file need not exist (its first transaction is the one under test) */
+  int flags = SQLITE_OPEN_READWRITE | SQLITE_OPEN_URI;
+  if (getenv("CRASHWRITER_CREATE")) flags |= SQLITE_OPEN_CREATE;
+  if (sqlite3_open_v2(argv[1], &db, flags, 0) != SQLITE_OK) return 3;
   char buf[256];
   snprintf(buf, sizeof buf, "PRAGMA journal_mode=%s", argv[2]);
   run(db, buf, 1);
